@@ -70,7 +70,12 @@ func genC41(t *rapid.T) c41Case {
 		}
 	}
 	if c.External && c.Transport == "http" && (c.Call.Kind == "unary" || c.Call.Kind == "stream") && rapid.IntRange(0, 2).Draw(t, "extin") == 0 {
-		c.ExtInput = []string{"params", "params+logs", "two-data", "broken"}[rapid.IntRange(0, 3).Draw(t, "extink")]
+		c.ExtInput = []string{"params", "params+logs", "two-data", "broken", "xin32", "xin64", "xin32"}[rapid.IntRange(0, 6).Draw(t, "extink")]
+		if strings.HasPrefix(c.ExtInput, "xin") {
+			// exchange inputs supplied through external pointers (xin32: castable int32 column)
+			c.Call = lib.CallSpec{Kind: "stream", Method: []string{"s_exch", "s_exch_h", "s_dyn"}[rapid.IntRange(0, 2).Draw(t, "xm")], CancelAt: -1,
+				Stream: &lib.StreamScript{ID: lib.CallID(0), InitOutcome: "ok", DynKind: "exchange", DynInput: true}, Inputs: []lib.InputSpec{{Vals: []int64{1}}, {Vals: []int64{2}}, {Vals: []int64{3}}}}
+		}
 	}
 	if rapid.IntRange(0, 5).Draw(t, "ver") == 0 {
 		c.Version = "1.2.3"
@@ -150,6 +155,25 @@ func (c c41Case) play(srv *vgirpc.Server, h *vgirpc.HttpServer, origin string, o
 		return fmt.Sprintf("http:%d", r.Status)
 	}
 	hcall := call
+	if strings.HasPrefix(c.ExtInput, "xin") {
+		t := lib.HTTPInit(h, "", call, nil)
+		n := 1
+		for i := 0; i < 3 && t.Cursor != ""; i++ {
+			ptr := lib.WithMeta(lib.EmptyBatch(lib.InSchema), []string{lib.KLocation}, []string{fmt.Sprintf("%s/%s?v=%d", origin, c.ExtInput, i+1)})
+			callTok := t.CallToken
+			if callTok == "" {
+				callTok = firstCallTok
+			} else {
+				firstCallTok = callTok
+			}
+			t = lib.HTTPContinue(h, "", call.Method, ptr, t.Cursor, callTok, nil, nil)
+			if t.Resp.Panic != "" {
+				out.Violate("C41/panic", "ServeHTTP panicked: %s", lib.Short(t.Resp.Panic, 200))
+			}
+			n++
+		}
+		return fmt.Sprintf("http-ext-input:%d requests", n)
+	}
 	if c.ExtInput != "" {
 		// init through an externally uploaded parameter batch
 		o := call.Opts
@@ -186,6 +210,11 @@ func originHandler(w http.ResponseWriter, r *http.Request) {
 	logb := lib.WithMeta(lib.EmptyBatch(lib.ScriptParamSchema), []string{lib.KLogLevel, lib.KLogMessage}, []string{"INFO", "from upload"})
 	var body []byte
 	switch strings.Trim(r.URL.Path, "/") {
+	case "xin32", "xin64":
+		v, _ := strconv.ParseInt(r.URL.Query().Get("v"), 10, 64)
+		in := lib.InputSpec{Vals: []int64{v, v + 1}, Type: map[string]string{"xin32": "int32", "xin64": "int64"}[strings.Trim(r.URL.Path, "/")]}
+		b := in.Batch()
+		body = lib.EncodeStream(b.Schema(), b)
 	case "params":
 		body = lib.EncodeStream(lib.ScriptParamSchema, params)
 	case "params+logs":
@@ -201,6 +230,7 @@ func originHandler(w http.ResponseWriter, r *http.Request) {
 }
 
 var origin *httptest.Server
+var firstCallTok string
 
 func runC41(c c41Case) (out lib.Outcome) {
 	lib.ResetEvents()
